@@ -48,6 +48,8 @@ fn main() {
         "resolve-local" => streams::resolve::run(&mut r, n, "local", &mut out),
         "resolve-universe" => streams::resolve::run(&mut r, n, "universe", &mut out),
         "resolve-faults" => streams::resolve::run(&mut r, n, "faults", &mut out),
+        "server" => streams::server::run_serve(&mut r, n, &mut out),
+        "reload" => streams::server::run_reload(&mut r, n, &mut out),
         other => {
             eprintln!("unknown stream {other}");
             std::process::exit(2);
